@@ -13,7 +13,7 @@ use crate::sm83;
 pub struct BusCrash;
 
 const VALUES: [u8; 15] = [0x00, 0x01, 0x1f, 0x20, 0x3f, 0x40, 0x60, 0x7f, 0x80, 0xff, 0x03, 0x04, 0x08, 0x0a, 0x0c];
-const WORD_EDGES: [u16; 10] = [0xffff, 0x7fff, 0xbfff, 0x3fff, 0x9fff, 0xdfff, 0xfdff, 0xfe9f, 0xfeff, 0xff7f];
+const WORD_EDGES: [u16; 12] = [0xffff, 0x7fff, 0xbfff, 0x3fff, 0x9fff, 0xdfff, 0xfdff, 0xfe9f, 0xfeff, 0xff7f, 0xa7ff, 0xa800];
 
 fn region(a: u16) -> u64 {
     match a {
@@ -59,9 +59,17 @@ impl Scenario for BusCrash {
         case.set("ram_code", RAM_CODES[cfg / 84] as i64);
         case.set("rom_fill", 0);
         let nw = rng.below(9);
+        let banks = crate::cart::rom_banks(ROM_CODES[(cfg / 7) % 12]);
         for _ in 0..nw {
             let addr = rng.pick(&[0x0000u16, 0x2000, 0x3fff, 0x4000, 0x5fff, 0x6000, 0x7fff, 0x2100]);
-            let v = if rng.chance(3, 4) { rng.pick(&VALUES) } else { rng.byte() };
+            let v = match rng.below(8) {
+                // the cartridge's own last banks (and just beyond), as 7-bit, 5-bit and upper-bits register values
+                0 => (((banks - 1).saturating_sub(rng.below(6) as usize)) & 0x7f) as u8,
+                1 => (((banks - 1).saturating_sub(rng.below(6) as usize)) & 0x1f) as u8,
+                2 => (((banks - 1) >> 5) & 3) as u8,
+                3 => rng.byte(),
+                _ => rng.pick(&VALUES),
+            };
             case.push("w", &[addr as i64, v as i64]);
         }
         // the first two passes over the 504 configurations also sweep the whole address space after the register history
